@@ -32,6 +32,19 @@ type EvictionLimiter struct {
 	totalCount                 uint
 	nodePodCount               nodePodEvictedCount
 	namespacePodCount          namespacePodEvictCount
+	// evictLock serializes the "AllowEvict, evict, Done" sequences of concurrent evictors.
+	evictLock sync.Mutex
+}
+
+// LockEviction must be held by an evictor from AllowEvict until Done (or until the eviction
+// has failed); otherwise concurrent evictors can all be allowed before any of them is counted
+// and the limits are exceeded.
+func (pe *EvictionLimiter) LockEviction() {
+	pe.evictLock.Lock()
+}
+
+func (pe *EvictionLimiter) UnlockEviction() {
+	pe.evictLock.Unlock()
 }
 
 func NewEvictionLimiter(
